@@ -9,6 +9,7 @@ import (
 	"net/netip"
 	"os"
 	"path/filepath"
+	"slices"
 	"sort"
 	"strconv"
 	"strings"
@@ -166,7 +167,7 @@ func drawPrefix(rt *rapid.T, label string) netip.Prefix {
 	switch k := rapid.IntRange(0, 19).Draw(rt, label+"-kind"); {
 	case k < 16:
 		return rapid.SampledFrom(prefixPool).Draw(rt, label)
-	case k == 16:
+	case k == 16 || k == 17:
 		return rapid.SampledFrom(widePool).Draw(rt, label)
 	}
 	// a random prefix around a pool address
@@ -325,6 +326,8 @@ type genCase struct {
 	portProbe []uint16
 	files     map[string][]byte // file name -> content
 	labels    map[string]bool
+	// some route lists "" in fromUsers: anonymous requests are drawn more often
+	emptyUserListed bool
 }
 
 func genWorld(rt *rapid.T, dir string) *genCase {
@@ -335,6 +338,10 @@ func genWorld(rt *rapid.T, dir string) *genCase {
 	nServers := rapid.IntRange(1, 3).Draw(rt, "servers")
 	for i := 0; i < nServers; i++ {
 		w.servers = append(w.servers, fmt.Sprintf("s%d", i))
+	}
+	// the service accepts a server with an empty name (only duplicates are refused at load)
+	if rapid.IntRange(0, 4).Draw(rt, "unnamed-server") == 0 {
+		w.servers[rapid.IntRange(0, nServers-1).Draw(rt, "unnamed-server-idx")] = ""
 	}
 
 	nClients := rapid.IntRange(1, 3).Draw(rt, "clients")
@@ -497,6 +504,20 @@ func genWorld(rt *rapid.T, dir string) *genCase {
 		if p := drawPresence(rt, "from-users"); p > 0 {
 			rc.FromUsers = subset(rt, "usr", userVocab, 1)
 			rc.InvertFromUsers = p == 2
+			// "" is a legal member: requests that carry no authenticated user
+			switch rapid.SampledFrom([]string{"no", "no", "alone", "first", "last", "middle"}).Draw(rt, "usr-empty") {
+			case "alone":
+				rc.FromUsers = []string{""}
+			case "first":
+				rc.FromUsers = append([]string{""}, rc.FromUsers...)
+			case "last":
+				rc.FromUsers = append(rc.FromUsers, "")
+			case "middle":
+				rc.FromUsers = append(append([]string{rc.FromUsers[0], ""}, rc.FromUsers[1:]...), "carol")
+			}
+			if slices.Contains(rc.FromUsers, "") {
+				g.emptyUserListed = true
+			}
 		}
 		if p := drawPresence(rt, "from-ports"); p > 0 {
 			var probes []uint16
@@ -531,6 +552,13 @@ func genWorld(rt *rapid.T, dir string) *genCase {
 			}
 			if which != 1 {
 				rc.ToDomains = subset(rt, "td", domainVocab[:10], 1)
+				// a zero-length name is accepted at load; no request can carry one, so it matches nothing
+				switch rapid.IntRange(0, 7).Draw(rt, "td-empty") {
+				case 0:
+					rc.ToDomains = append([]string{""}, rc.ToDomains...)
+				case 1:
+					rc.ToDomains = append(rc.ToDomains, "")
+				}
 				if rapid.IntRange(0, 3).Draw(rt, "td-big") == 0 {
 					for k := 0; k < 17; k++ {
 						rc.ToDomains = append(rc.ToDomains, fmt.Sprintf("t%d.filler.test", k))
@@ -591,6 +619,9 @@ func drawRequest(rt *rapid.T, g *genCase) request {
 	q.UDP = rapid.Bool().Draw(rt, "udp")
 	q.Server = rapid.IntRange(0, len(w.servers)-1).Draw(rt, "server")
 	q.User = rapid.SampledFrom(requestUsers).Draw(rt, "user")
+	if g.emptyUserListed && rapid.IntRange(0, 2).Draw(rt, "anonymous") == 0 {
+		q.User = ""
+	}
 	drawPort := func(label string) uint16 {
 		k := rapid.IntRange(0, 9).Draw(rt, label+"-kind")
 		switch {
@@ -746,7 +777,10 @@ var recRouter = ev.New("C09", "router-model",
 		"Non-trivial: >=2 routes, deciding route not the first, and an inverted or OR-group criterion in a reached route; distinct key = config shape + request class + decider").
 	Require("nonfirst-route", "decided-default", "reject", "error-required", "src-mapped", "port0-vs-bitmap", "port0-vs-ranges",
 		"repr-single", "repr-ranges", "repr-bitmap", "todomains-over-16", "gob-set", "text-set", "resolved", "inverted", "or-group",
-		"target-ip", "target-domain", "unknown-user", "default-implicit", "default-reject", "errlookup-skipped", "route-resolver", "expected-prefixes", "cheap-false-resolver-fails")
+		"target-ip", "target-domain", "unknown-user", "default-implicit", "default-reject", "errlookup-skipped", "route-resolver", "expected-prefixes", "cheap-false-resolver-fails",
+		"fromUsers-contains-empty/anonymous-request", "fromUsers-contains-empty/anonymous-request/inverted", "fromUsers-contains-empty/named-request",
+		"fromServers-contains-empty/request-from-unnamed-server", "fromServers-contains-empty/request-from-unnamed-server/inverted",
+		"toDomains-contains-empty", "prefix-/0", "unspecified-address", "reject-route-network-restricted/other-network-request")
 
 var dirSeq atomic.Int64
 
@@ -824,6 +858,9 @@ func runCase(rt fataler, g *genCase, qs []request, rec *ev.Recorder, ntRule func
 			if inf.cheapFalseResolverFails {
 				add("cheap-false-resolver-fails")
 			}
+			for _, l := range inf.degenerate {
+				add(l)
+			}
 		}
 
 		if got.panicV != nil {
@@ -870,6 +907,9 @@ func runCase(rt fataler, g *genCase, qs []request, rec *ev.Recorder, ntRule func
 		}
 		if q.Src.Addr().Is4In6() {
 			add("src-mapped")
+		}
+		if q.Src.Addr().Unmap().IsUnspecified() || q.IsIP && q.IP.Unmap().IsUnspecified() {
+			add("unspecified-address")
 		}
 		if q.User == "mallory" || q.User == "" {
 			add("unknown-user")
